@@ -168,6 +168,15 @@ func (ps *Parser) parseMetaTags(root *html.Node) {
 		metaNodes = dom.QuerySelectorAll(root, "meta[property]")
 	}
 
+	// The object type decides whether "profile:" and "article:" properties are used,
+	// wherever it stands in the document, so look it up before parsing them.
+	typeProperty := ps.prefixes[OG] + ":" + TypeProp
+	for _, meta := range metaNodes {
+		if strings.ToLower(dom.GetAttribute(meta, "property")) == typeProperty {
+			ps.propertyTable[TypeProp] = dom.GetAttribute(meta, "content")
+		}
+	}
+
 	// Parse property
 	for _, meta := range metaNodes {
 		content := dom.GetAttribute(meta, "content")
